@@ -397,11 +397,16 @@ def entryFine (s : Index.Col) (own : Index.Trie Nat) (pos : Index.Trie (Nat × N
 def entryWhy (s : Index.Col) (own : Index.Trie Nat) (bits : Nat) (x : Nat × Nat × Nat) : String :=
   if !entryLive s bits x then "stale" else if !entryOwner own bits x then "owner" else "dup"
 
+/-- first entry of one table that is not fine (`pos` = `posOf` of the table, computed once) -/
+def firstBadEntry (s : Index.Col) (own : Index.Trie Nat) (pos : Index.Trie (Nat × Nat)) (bits : Nat)
+    (es : List (Nat × Nat × Nat)) : Option (Nat × Nat × Nat) :=
+  es.find? (fun x => !entryFine s own pos bits x)
+
 /-- first entry (tables in search order) that violates `NoStale` -/
 def firstStale (s : Index.Col) (own : Index.Trie Nat) : List IndexDump → Nat → Option String
   | [], _ => none
   | d :: ds, n =>
-    match d.entries.find? (fun x => !entryFine s own (posOf d) d.bits x) with
+    match firstBadEntry s own (posOf d) d.bits d.entries with
     | some x => some s!"{entryWhy s own d.bits x}:{n}:{x.1}:{x.2.1}"
     | none => firstStale s own ds (n + 1)
 
